@@ -100,7 +100,11 @@ var c20Modes = []c20Mode{{Neg: false, Track: false}, {Neg: true}, {Track: true},
 // rotate: Config.Pass is overwritten with the second password as soon as Connect has returned, i.e. while
 // the PASS line may still be queued | wipe: same, overwritten with ""
 var c20Outcomes = []string{"normal", "eof0", "writeerr1", "writeerr2", "writeerr3", "writeerr4", "writeerr1b", "writeerr2b", "writeerr3b", "writeerr4b", "dial-error", "no-server",
-	"tls-garbage", "tls-eof", "user-pass", "reconnect-to", "rotate", "wipe"}
+	"tls-garbage", "tls-eof", "user-pass", "reconnect-to", "rotate", "wipe",
+	// reconnect: a full session (welcome), the server hangs up, the same client connects again and registers a
+	// second time | stall-pass: the server accepts the connection and does not read for three minutes (longer
+	// than Config.Timeout), so the write of the first registration line blocks; then it reads
+	"reconnect", "stall-pass"}
 
 const (
 	c20LS  = ":srv CAP * LS :multi-prefix sasl away-notify"
@@ -270,6 +274,9 @@ func c20Scenario(pwIdx int, pw string, m c20Mode, outcome string) *explore.Scena
 			if outcome == "eof0" || outcome == "tls-eof" {
 				x.PreloadEOF()
 			}
+			if outcome == "stall-pass" {
+				x.PreStall()
+			}
 			if outcome == "tls-garbage" {
 				x.Preload(":srv NOTICE AUTH :*** Looking up your hostname\r\n")
 			}
@@ -288,7 +295,31 @@ func c20Scenario(pwIdx int, pw string, m c20Mode, outcome string) *explore.Scena
 		case "wipe":
 			c.Config().Pass = ""
 		}
+		if outcome == "stall-pass" {
+			vx.Sleep(3 * time.Minute)
+			vc.StallWrites(0)
+		}
 		settle()
+		if outcome == "reconnect" {
+			if m.Neg {
+				vc.SendLines(c20LS)
+				settle()
+				vc.SendLines(c20ACK)
+				settle()
+			}
+			vc.SendLines(welcome)
+			settle()
+			vc.EOF()
+			settle()
+			err := c.Connect()
+			vx.Observe("ev", fmt.Sprintf("second connect ok=%v", err == nil))
+			if err != nil {
+				return
+			}
+			settle()
+			vc.SendLines(welcome)
+			settle()
+		}
 		switch outcome {
 		case "user-pass", "reconnect-to", "rotate", "wipe":
 			if m.Neg {
@@ -483,7 +514,7 @@ func c20EnumJob(name string, idx []int, pws []string) Job {
 func init() {
 	Register(&Prop{
 		ID:   "C20",
-		Rule: "passwords = marker \"Zq7Pw\" + variant and \"x\" + marker + variant for variant ∈ {p, PASS, ' lead', 'a b', ':c', '%s%d%!', '\\', '\\x01x', 600×z} (18 designed), plus marker + every printable ASCII byte (95) and a length ladder 1..2000 (12) (thorough: + pairs of IRC/fmt/mask-significant bytes around the marker and fmt/IRC look-alikes); sessions = {plain, negotiation, tracking, both, plain without proxy, both without proxy, plain with flood protection, both with flood protection} × outcome {normal welcome + 11 lines + EOF, EOF at once, write error on write 1..4, dial error, empty cfg.Server, TLS handshake answered in plain text / by EOF, a second password (other marker) sent with Conn.Pass after registration, ConnectTo(other host, second password) while connected followed by Conn.Pass(first), Config.Pass overwritten (second password / empty) as soon as Connect returns}; enumeration jobs run every (password, session) once under the default schedule; exploration jobs run the failing-connection sessions of the 18 designed passwords under every schedule within the deviation budgets; the capturing logger records all four levels; distinct = distinct (password, session, sequence of (level, format) records, number of masked PASS records) resp. distinct canonical observation per explored scenario",
+		Rule: "passwords = marker \"Zq7Pw\" + variant and \"x\" + marker + variant for variant ∈ {p, PASS, ' lead', 'a b', ':c', '%s%d%!', '\\', '\\x01x', 600×z} (18 designed), plus marker + every printable ASCII byte (95) and a length ladder 1..2000 (12) (thorough: + pairs of IRC/fmt/mask-significant bytes around the marker and fmt/IRC look-alikes); sessions = {plain, negotiation, tracking, both, plain without proxy, both without proxy, plain with flood protection, both with flood protection} × outcome {normal welcome + 11 lines + EOF, EOF at once, write error on write 1..4, dial error, empty cfg.Server, TLS handshake answered in plain text / by EOF, a second password (other marker) sent with Conn.Pass after registration, ConnectTo(other host, second password) while connected followed by Conn.Pass(first), Config.Pass overwritten (second password / empty) as soon as Connect returns, a second connect of the same client after a full first session, a server that does not read for three minutes after accepting}; enumeration jobs run every (password, session) once under the default schedule; exploration jobs run the failing-connection sessions of the 18 designed passwords under every schedule within the deviation budgets; the capturing logger records all four levels; distinct = distinct (password, session, sequence of (level, format) records, number of masked PASS records) resp. distinct canonical observation per explored scenario",
 		Assumptions: []string{
 			"the server never sends the password (recv logs every received line); asserted by the harness precondition",
 			"connections go through the in-memory network either via the registered proxy type or (modes +direct) via the Dialer shim that replaces net.Dialer in the instrumented copy; the TLS branch is executed with a handshake that fails (plain-text answer, EOF), never with one that succeeds",
